@@ -16,7 +16,7 @@ static uint64_t nA, nB, nC, nF;
 
 static std::string spec_desc(const RspSpec& s)
 {
-    std::string d = "code=" + std::to_string(s.code) + (s.salt >= 100 ? " binary-fill" + std::to_string(s.salt - 100) : std::string()) + " headers=[";
+    std::string d = std::string(s.locale ? "[digit-grouping global locale " + std::to_string(s.locale) + "] " : "") + "code=" + std::to_string(s.code) + (s.salt >= 100 ? " binary-fill" + std::to_string(s.salt - 100) : std::string()) + " headers=[";
     for (int h : s.headers)
         d += std::string(rsp_headers()[h].name) + ",";
     d += "] cookies=" + std::to_string(s.cookies.size());
@@ -146,6 +146,20 @@ static void caseA(uint64_t i, vr::Ctx& ctx)
             ctx.count("evaluations", 1);
             s.salt = int(len % 7);
         }
+        if (len == 999 || len == 1000 || len == 1024 || len == 2048)
+        {
+            // (round 6) the same response while the process-wide C++ locale groups digits: a length of four digits and more
+            for (int loc = 1; loc <= 2; ++loc)
+            {
+                s.locale = loc;
+                ctx.note("A " + spec_desc(s));
+                RspResult rl = run_response(s, &steps);
+                check_response(s, rl, ctx, false);
+                ctx.count("evaluations", 1);
+                ctx.nontrivial(vr::hash_str(spec_desc(s)));
+            }
+            s.locale = 0;
+        }
         if (!total)
             continue;
         // limits around the exact size: only on a thinned set of lengths (each costs a full cycle)
@@ -180,7 +194,9 @@ static void caseB(uint64_t i, vr::Ctx& ctx)
     s.code         = gCodes[i % gCodes.size()];
     s.headers      = gHdrSets[i % gHdrSets.size()];
     if ((i / 9) % 4 == 3)
-        s.headers.push_back(8); // a quarter of the programs: the handler announces a transfer coding of its own as well
+        s.headers.push_back(8);
+    if ((i / 9) % 4 == 1)
+        s.locale = 1 + int(i / 36 % 2); // a quarter of the programs run under a digit-grouping process-wide locale // a quarter of the programs: the handler announces a transfer coding of its own as well
     s.cookies      = gCookieSets[i % gCookieSets.size()];
     s.salt         = (i % 11 == 10) ? 100 + int(i / 11) % 3 : int(i % 5); // every 11th: binary payloads
     uint64_t steps = 0;
